@@ -2,6 +2,7 @@ import L21.Driver.Sexp
 import L21.Model.LefLex
 import L21.Model.LefEnum
 import L21.Model.Lef
+import L21.Model.LefWrite
 /- Line-protocol glue for the LEF lexer and keyword models. -/
 namespace L21.Driver
 open L21 Sexp
@@ -135,6 +136,26 @@ def opLefParse (args : List Sexp) : String :=
           match Lef.parse cs with
           | some l => s!"ok {sLib l}"
           | none => "err"
+        else "unsupported"
+  | _ => "bad-op"
+
+def sTok (t : Tok) : Sexp := .list [.atom (L21.Driver.ttName t.tt), sStr t.txt]
+
+/-- text → library (reader model) → tokens of what the writer prints (writer model) -/
+def opLefWTokens (args : List Sexp) : String :=
+  match args with
+  | [a] => match L21.Driver.utf8Text? a with
+    | none => "bad-op"
+    | some cs =>
+      match Lef.tokens cs with
+      | none => "err"
+      | some ts =>
+        if ts.all (fun t => t.tt != .number || numberInDomain t.txt) then
+          match Lef.parse cs with
+          | none => "err"
+          | some l => match Lef.wLib l with
+            | some toks => s!"ok {Sexp.list (toks.map sTok)}"
+            | none => "err-write"
         else "unsupported"
   | _ => "bad-op"
 
